@@ -108,6 +108,12 @@ type Contracts struct {
 }
 
 func NewContracts() *Contracts {
+	cs := newContracts0()
+	cs.scanSmtDecls(preludeCore)
+	return cs
+}
+
+func newContracts0() *Contracts {
 	return &Contracts{Funcs: map[string]*FuncContract{}, Preds: map[string]*PredDef{}, Ghosts: map[string]*GhostDef{}, SmtFuns: map[string]*SmtFun{}, NonNil: map[string]bool{}, GlobalInv: map[string][]*Clause{}}
 }
 
